@@ -59,17 +59,24 @@ func (inst *Instance) RemoveWallet(id, pass string, solo bool) error {
 //
 //go:norace
 func (inst *Instance) ImportMnemonic(src *WalletState, extHint uint32, solo bool) (*WalletState, error) {
+	return inst.ImportMnemonicIdx(src, extHint, 0, solo)
+}
+
+// ImportMnemonicIdx is ImportMnemonic with an internal-branch index hint too.
+//
+//go:norace
+func (inst *Instance) ImportMnemonicIdx(src *WalletState, extHint, intHint uint32, solo bool) (*WalletState, error) {
 	var sum *masswallet.WalletSummary
 	var err error
 	params := &keystore.WalletParams{Mnemonic: src.Mnemonic, PrivatePassphrase: []byte(src.Pass), Remarks: "imp",
-		ExternalIndex: extHint, AddressGapLimit: inst.Cfg.Wallet.Settings.AddressGapLimit}
+		ExternalIndex: extHint, InternalIndex: intHint, AddressGapLimit: inst.Cfg.Wallet.Settings.AddressGapLimit}
 	if !inst.RunCall("ImportMnemonic", solo, func() { sum, err = inst.WM.ImportWalletWithMnemonic(params) }) {
 		return nil, inst.unfinished("ImportWalletWithMnemonic")
 	}
 	if err != nil {
 		return nil, err
 	}
-	ws := &WalletState{ID: sum.WalletID, Mnemonic: src.Mnemonic, Pass: src.Pass, HD: src.HD, Imported: true}
+	ws := &WalletState{ID: sum.WalletID, Mnemonic: src.Mnemonic, Pass: src.Pass, HD: src.HD, Imported: true, InternalN: intHint}
 	inst.Wallets[ws.ID] = ws
 	inst.W.Stat("op.import_mnemonic")
 	return ws, nil
@@ -99,7 +106,7 @@ func (inst *Instance) ImportKeystore(src *WalletState, js string, solo bool) (*W
 	if err != nil {
 		return nil, err
 	}
-	ws := &WalletState{ID: sum.WalletID, Mnemonic: src.Mnemonic, Pass: src.Pass, HD: src.HD, Imported: true}
+	ws := &WalletState{ID: sum.WalletID, Mnemonic: src.Mnemonic, Pass: src.Pass, HD: src.HD, Imported: true, InternalN: src.InternalN}
 	inst.Wallets[ws.ID] = ws
 	inst.W.Stat("op.import_keystore")
 	return ws, nil
